@@ -14,8 +14,12 @@ targets = {'server_access.go': 'server', 'network_access.go': 'network', 'rules_
 for f in sorted(glob.glob(os.path.join(verif, 'sim', 'access', '*.go'))):
     d = targets[os.path.basename(f)]
     ov[os.path.join(repo, d, 'zz_verif_' + os.path.basename(f))] = f
-json.dump({'Replace': ov}, open(os.path.join(build, 'overlay.json'), 'w'), indent=1)
+def atomic(path, text):
+    tmp = '%s.%d.tmp' % (path, os.getpid())
+    open(tmp, 'w').write(text)
+    os.replace(tmp, path)
+atomic(os.path.join(build, 'overlay.json'), json.dumps({'Replace': ov}, indent=1))
 mod = open(os.path.join(repo, 'go.mod')).read()
 extra = '\nrequire (\n\tgithub.com/anishathalye/porcupine v1.3.0\n\tpgregory.net/rapid v1.3.0\n)\n'
-open(os.path.join(build, 'go.mod'), 'w').write(mod + extra)
-shutil.copy(os.path.join(repo, 'go.sum'), os.path.join(build, 'go.sum'))
+atomic(os.path.join(build, 'go.mod'), mod + extra)
+atomic(os.path.join(build, 'go.sum'), open(os.path.join(repo, 'go.sum')).read())
